@@ -1,13 +1,14 @@
+\* exploration that starts from a prepared state: one stream drained, one live
 SPECIFICATION Spec
 CONSTANTS
-  Pre <- NoPre
+  Pre <- PreDrained
   FailingGov = FALSE
-  MaxHeight = 2
+  MaxHeight = 5
   MaxTx = 3
   MaxFail = 1
-  MaxStreams = 1
+  MaxStreams = 2
   Fees <- FeesQuick
-  DTs <- DTsQuick
+  DTs <- DTsDeep
 VIEW View
 INVARIANT Inv
 PROPERTY StepProps
